@@ -36,7 +36,7 @@ def _flag_locals(f):
                     vals.setdefault(nm, set()).add(v)
                 else:
                     bad.add(nm)
-        elif x.get('kind') in ('CompoundAssignOperator',) or (x.get('kind') == 'UnaryOperator' and x.get('opcode') in ('++', '--', '&')):
+        elif x.get('kind') in ('CompoundAssignOperator',) or (x.get('kind') == 'UnaryOperator' and x.get('opcode') in ('++', '--')):
             l = strip(children(x)[0])
             if l.get('kind') == 'DeclRefExpr':
                 bad.add((l.get('referencedDecl') or {}).get('name'))
@@ -172,7 +172,17 @@ def _analyse(prog, f, recs, flags, summaries, collect_reads=True):
                             s[('lb', r)] = min(CAP, s.get(('lb', r), 0) + 1)
                         else:
                             s[('lb', r)] = 0
-            elif ev[0] == 'call' and ev[1] is not skip_call:
+            elif ev[0] == 'call':
+                # a flag handed to the callee by address (`next_word(&pos, &done, ...)`) has an unknown value afterwards
+                for a_ in children(ev[1])[1:]:
+                    sa_ = strip(a_)
+                    if sa_.get('kind') == 'UnaryOperator' and sa_.get('opcode') == '&':
+                        t_ = strip(children(sa_)[0])
+                        nm_ = (t_.get('referencedDecl') or {}).get('name') if t_.get('kind') == 'DeclRefExpr' else None
+                        if nm_ in flags:
+                            s[('flag', nm_)] = None
+                if ev[1] is skip_call:
+                    continue
                 h = helper_call(ev[1])
                 if h:
                     sm, r = h
